@@ -6,6 +6,7 @@ import (
 	"fmt"
 	"go/token"
 	"go/types"
+	"sort"
 	"strings"
 
 	"golang.org/x/tools/go/ssa"
@@ -237,7 +238,11 @@ func (g *Gen) expandStar(entries []string) []string {
 
 func (g *Gen) pointMods(fc *FnCtx, sp *FuncSpec) []pointMod {
 	var out []pointMod
-	for _, e := range g.expandStar(sp.Modifies) {
+	entries := g.expandStar(sp.Modifies)
+	for _, gs := range sp.GhostSets {
+		entries = append(entries, "ghost "+gs[0]+"["+gs[1]+"]")
+	}
+	for _, e := range entries {
 		var cond *SExpr
 		full := e
 		if j := strings.Index(e, " if "); j > 0 {
@@ -331,9 +336,25 @@ func (g *Gen) fnMods(fc *FnCtx, fn *ssa.Function) *ModSet {
 	if sp := g.specFor(fn); sp != nil && sp.HasMod {
 		ms := newModSet()
 		g.specMods(fc, sp, ms)
+		g.addGhostSets(fc, sp, ms)
 		return ms
 	}
-	return g.bodyMods(fc, fn)
+	ms := g.bodyMods(fc, fn)
+	if sp := g.specFor(fn); sp != nil && len(sp.GhostSets) > 0 {
+		cp := newModSet()
+		cp.add(ms)
+		g.addGhostSets(fc, sp, cp)
+		return cp
+	}
+	return ms
+}
+
+func (g *Gen) addGhostSets(fc *FnCtx, sp *FuncSpec, ms *ModSet) {
+	for _, gs := range sp.GhostSets {
+		for _, n := range g.modEntryNames(fc, sp, "ghost "+gs[0]) {
+			ms.Names[n] = true
+		}
+	}
 }
 
 // bodyMods: the modifies set inferred from the body (callees by their declared or inferred sets).
@@ -501,6 +522,30 @@ func (fr *Frame) resolveModEntry(e string, ms *ModSet, sp *FuncSpec, st *State) 
 // ---------------------------------------------------------------------------
 
 func (fr *Frame) call(in ssa.Instruction, c *ssa.CallCommon, b *ssa.BasicBlock, st *State, guard string) *State {
+	before := fr.fc.siteCount
+	nst := fr.call1(in, c, b, st, guard)
+	// explicit call-site assumptions of the caller's contract ("assume callee#k : expr", old() = state before the call)
+	fc0 := fr.fc
+	if fr.isTop && fc0.spec != nil && len(fc0.spec.Assumes) > 0 && fc0.lastSite != "" && fc0.siteCount > before {
+		for _, c := range fc0.spec.Assumes {
+			if c.Site != fc0.lastSite && c.Site != fc0.lastSiteName+"#*" {
+				continue
+			}
+			env := fr.specEnv(nst, nil, nil)
+			env.old = st
+			env.localsFirst = true
+			env.oldLocals = true
+			env.lookup = func(n string, s *State) (Val, bool) { return fr.lookupLocalAt(n, s, b, in) }
+			f := env.bool(c.Expr)
+			fc0.assume(sImp(guard, f), "explicit assumption after "+c.Site)
+			fc0.note("ASSUMED (call-site assumption in the contract of " + fc0.spec.Name + " after " + c.Site + "): " + c.Text)
+			c.bound = true
+		}
+	}
+	return nst
+}
+
+func (fr *Frame) call1(in ssa.Instruction, c *ssa.CallCommon, b *ssa.BasicBlock, st *State, guard string) *State {
 	fc := fr.fc
 	var resV ssa.Value
 	if v, ok := in.(ssa.Value); ok {
@@ -969,7 +1014,7 @@ func (fr *Frame) applyContract(sp *FuncSpec, fn *ssa.Function, name string, pnam
 		}
 		nst = st.havocSetP(set, ms.Pfx)
 	}
-	if sp.HasMod {
+	if sp.HasMod || len(sp.GhostSets) > 0 {
 		for _, n := range fc.g.freshMods(fc, sp) {
 			fv := fc.freshName(n + "@nw")
 			fc.declareConst(fv, fc.sorts[n])
@@ -1082,6 +1127,13 @@ func (fr *Frame) applyContract(sp *FuncSpec, fn *ssa.Function, name string, pnam
 			continue
 		}
 		f := eenv.bool(c.Expr)
+		if fc.thin && (strings.Contains(f, "(forall ") || strings.Contains(f, "(exists ")) {
+			// thin mode keeps queries quantifier-free: quantified callee postconditions are not used (weaker, still sound)
+			f = dropQuantified(f)
+			if f == "true" {
+				continue
+			}
+		}
 		fc.assume(sImp(guard, f), "contract of "+name+": "+c.Text)
 	}
 	if sp.Trusted {
@@ -1402,6 +1454,13 @@ func (fr *Frame) callSiteAsserts(name string, pnames []string, args []Val, b *ss
 	if !fr.isTop || fc.spec == nil {
 		return occ
 	}
+	// ordinals of call sites follow source order, not the order in which blocks happen to be translated
+	if o, ok := fc.siteOrd[in]; ok {
+		occ = o
+	}
+	fc.siteCount++
+	fc.lastSite = fmt.Sprintf("%s#%d", name, occ)
+	fc.lastSiteName = name
 	for _, c := range fc.spec.Asserts {
 		if c.Site == fmt.Sprintf("%s#%d", name, occ) || c.Site == name+"#*" {
 			if !fc.modeOK(c) {
@@ -1428,4 +1487,106 @@ func (fr *Frame) callSiteAsserts(name string, pnames []string, args []Val, b *ss
 		}
 	}
 	return occ
+}
+
+// dropQuantified weakens a formula by replacing quantified conjuncts of a top-level conjunction with true;
+// anything else containing a quantifier is dropped entirely.
+func dropQuantified(f string) string {
+	if !strings.HasPrefix(f, "(and ") {
+		return "true"
+	}
+	// split top-level arguments of (and ...)
+	body := f[5 : len(f)-1]
+	var parts []string
+	depth, start := 0, 0
+	inBar := false
+	for i := 0; i < len(body); i++ {
+		switch body[i] {
+		case '|':
+			inBar = !inBar
+		case '(':
+			if !inBar {
+				depth++
+			}
+		case ')':
+			if !inBar {
+				depth--
+			}
+		case ' ':
+			if depth == 0 && !inBar {
+				parts = append(parts, body[start:i])
+				start = i + 1
+			}
+		}
+	}
+	parts = append(parts, body[start:])
+	var keep []string
+	for _, p := range parts {
+		if p == "" {
+			continue
+		}
+		if strings.Contains(p, "(forall ") || strings.Contains(p, "(exists ") {
+			if strings.HasPrefix(p, "(and ") {
+				if q := dropQuantified(p); q != "true" {
+					keep = append(keep, q)
+				}
+			}
+			continue
+		}
+		keep = append(keep, p)
+	}
+	return sAnd(keep...)
+}
+
+// computeSiteOrdinals numbers the calls of each callee in a function by source position.
+func (fc *FnCtx) computeSiteOrdinals(fn *ssa.Function) {
+	fc.siteOrd = map[ssa.Instruction]int{}
+	type site struct {
+		in  ssa.Instruction
+		pos token.Pos
+		idx int
+	}
+	by := map[string][]site{}
+	n := 0
+	for _, b := range fn.Blocks {
+		for _, in := range b.Instrs {
+			ci, ok := in.(ssa.CallInstruction)
+			if !ok {
+				continue
+			}
+			n++
+			name := fc.siteName(fn, ci.Common())
+			by[name] = append(by[name], site{in, in.Pos(), n})
+		}
+	}
+	for _, ss := range by {
+		sort.SliceStable(ss, func(i, j int) bool {
+			if ss[i].pos != ss[j].pos {
+				return ss[i].pos < ss[j].pos
+			}
+			return ss[i].idx < ss[j].idx
+		})
+		for i, s := range ss {
+			fc.siteOrd[s.in] = i + 1
+		}
+	}
+}
+
+func (fc *FnCtx) siteName(fn *ssa.Function, c *ssa.CallCommon) string {
+	if c.IsInvoke() {
+		return typeKey(c.Value.Type()) + "." + c.Method.Name()
+	}
+	switch v := c.Value.(type) {
+	case *ssa.Function:
+		return fnName(v)
+	case *ssa.MakeClosure:
+		return fnName(v.Fn.(*ssa.Function))
+	case *ssa.Builtin:
+		return "builtin " + v.Name()
+	case *ssa.Parameter:
+		if sp := fc.g.specs.Funcs[fnName(fn)+"."+v.Name()]; sp != nil {
+			return sp.Name
+		}
+	}
+	return "funcvalue"
 }
